@@ -17,7 +17,8 @@ pub struct Matched {
 ///
 /// Errors are C01 violations: unknown / altered contents, duplicate delivery, delivery out of
 /// channel order.
-pub fn match_deliveries(seed: u64, zero_ch: u8, subs: &[Sub], delivs: &[Box<[u8]>], s: usize) -> Result<Matched, Violation> {
+pub fn match_deliveries(seed: u64, zero_ch: u8, subs: &[Sub], delivs: &[Box<[u8]>], s: usize, global: bool) -> Result<Matched, Violation> {
+    let mut last_global: i64 = -1;
     let mut sub_delivered: Vec<Option<u32>> = vec![None; subs.len()];
     let mut deliv_to_sub: Vec<u32> = Vec::with_capacity(delivs.len());
     let mut last_idx: [i64; 64] = [-1; 64];
@@ -45,7 +46,9 @@ pub fn match_deliveries(seed: u64, zero_ch: u8, subs: &[Sub], delivs: &[Box<[u8]
             idx = i;
         } else {
             let (ch, mode) = if n == 0 { (zero_ch, None) } else { (data[0] & 63, Some(data[0] >> 6)) };
-            let start = (last_idx[ch as usize] + 1) as usize;
+            // packets without identity: earliest candidate that keeps the channel order (and, when
+            // the whole sequence is expected to be ordered, the global order)
+            let start = if global { (last_idx[ch as usize].max(last_global) + 1) as usize } else { (last_idx[ch as usize] + 1) as usize };
             let mut found = None;
             for (i, sub) in subs.iter().enumerate().skip(start) {
                 if sub.ch != ch || sub.size as usize != n || sub_delivered[i].is_some() {
@@ -87,6 +90,7 @@ pub fn match_deliveries(seed: u64, zero_ch: u8, subs: &[Sub], delivs: &[Box<[u8]
             ));
         }
         last_idx[sub.ch as usize] = idx as i64;
+        last_global = last_global.max(idx as i64);
         sub_delivered[idx as usize] = Some(k as u32);
         deliv_to_sub.push(idx);
     }
@@ -94,9 +98,13 @@ pub fn match_deliveries(seed: u64, zero_ch: u8, subs: &[Sub], delivs: &[Box<[u8]
 }
 
 pub fn match_direction(sc: &PairScenario, trace: &Trace, s: usize) -> Result<Matched, Violation> {
+    match_direction_opt(sc, trace, s, false)
+}
+
+pub fn match_direction_opt(sc: &PairScenario, trace: &Trace, s: usize, global: bool) -> Result<Matched, Violation> {
     let r = 1 - s;
     let delivs: Vec<Box<[u8]>> = trace.delivs[r].iter().map(|d| d.data.clone()).collect();
-    match_deliveries(sc.seed, sc.zero_ch, &trace.subs[s], &delivs, s).map_err(|mut v| {
+    match_deliveries(sc.seed, sc.zero_ch, &trace.subs[s], &delivs, s, global).map_err(|mut v| {
         v.msg = format!("direction {}->{}: {}", s, r, v.msg);
         v
     })
